@@ -363,6 +363,7 @@ struct AodTr {
 };
 
 // ------------------------------------------------------------------ objects
+struct no_such_object {};   // malformed history (dangling id, wrong object kind): reported as `no-such-object`, never as `throw`
 struct Obj {
   std::string fam; uint64_t seed = 9001; int lgk = 12; int nv = 1;
   virtual ~Obj() {}
@@ -586,7 +587,6 @@ template<typename Tr> struct Fam : Obj {
 };
 
 static std::map<int, std::unique_ptr<Obj>> objs;
-struct no_such_object {};
 // a dangling object id is a malformed history (e.g. produced by delta debugging), not an exception of the library
 static Obj* get_obj(const std::string& id) {
   auto it = objs.find(atoi(id.c_str()));
